@@ -853,6 +853,14 @@ fn run_shape(c: &ShapeCase) -> Outcome {
             datas.push(("TrustSignature".into(), SubpacketData::TrustSignature(1, 120)));
             datas.push(("RegularExpression".into(), SubpacketData::RegularExpression("<[^>]+[@.]example\\.org>$".into())));
             datas.push(("Notation".into(), SubpacketData::Notation(Notation { readable: true, name: "n@example.org".into(), value: "v".into() })));
+            // the same text-carrying subpackets with characters of 2, 3 and 4 UTF-8 octets (a length
+            // in characters is not a length in octets)
+            datas.push(("RevocationReason(non-ASCII)".into(), SubpacketData::RevocationReason(RevocationCode::KeyRetired, "zur\u{fc}ckgezogen \u{2014} \u{1f511}".into())));
+            datas.push(("PreferredKeyServer(non-ASCII)".into(), SubpacketData::PreferredKeyServer("hkps://schl\u{fc}ssel.example.org/\u{9375}".into())));
+            datas.push(("PolicyURI(non-ASCII)".into(), SubpacketData::PolicyURI("https://example.org/r\u{e8}gles/\u{1f4dc}".into())));
+            datas.push(("SignersUserID(non-ASCII)".into(), SubpacketData::SignersUserID("Zo\u{eb} <zo\u{eb}@example.org>".into())));
+            datas.push(("RegularExpression(non-ASCII)".into(), SubpacketData::RegularExpression("<[^>]+[@.]b\u{fc}cher\\.example>$".into())));
+            datas.push(("Notation(non-ASCII)".into(), SubpacketData::Notation(Notation { readable: true, name: "n\u{e4}me@example.org".into(), value: "w\u{e9}rt \u{2713}".into() })));
             datas.push(("Experimental".into(), SubpacketData::Experimental(101, vec![1, 2, 3].into())));
             datas.push(("Other".into(), SubpacketData::Other(60, vec![9; 200].into())));
             let (name, data) = &datas[c.n / 2 % datas.len()];
@@ -1075,7 +1083,7 @@ pub fn check(ctx: &Ctx) {
     for n in [0usize, 1, 6, 7, 191, 192, 193, 255, 256, 8383, 8384, 8385, 65535, 65536, 70_000] {
         hc.push(ShapeCase { family: 3, n });
     }
-    for n in 0..if quick { 12 } else if deep { 1000 } else { 60 } {
+    for n in 0..if quick { 12 } else if deep { 1000 } else { 200 } {
         hc.push(ShapeCase { family: 5, n });
     }
     for n in 0..120 {
